@@ -39,6 +39,10 @@ Same == UNCHANGED <<toks, stale, fixPhase, skip, lastPS>>
 Parse ==
   /\ E.e = "Parse"
   /\ Chk("C04_AllClassified", E.raw = 0)
+  /\ Chk("C04_EmitEqualsRead", E.rt)
+  /\ Chk("C04_LineWidths", LET ls == LineSeq(E.toks) IN
+                             /\ Len(ls) = Len(E.lineLens)
+                             /\ \A k \in 1..Len(ls) : FoldLeft(LAMBDA acc, t : acc + t[3], 0, ls[k]) = E.lineLens[k])
   /\ Chk("C02_CommentEndsLine", CommentEndsLine(E.toks))
   /\ toks' = E.toks /\ stale' = FALSE
   /\ UNCHANGED <<fixPhase, skip, lastPS>>
@@ -92,7 +96,10 @@ FixStep ==
      \* ---- C07: exactly the reported lines
      /\ Chk("C07_InFile", \A i \in 1..Len(e.rep) : e.rep[i] >= 1 /\ e.rep[i] <= NumLines(toks))
      /\ Chk("C07_LineCount", ~LineLocalClass(e) \/ NumLines(t2) = NumLines(toks))
-     /\ Chk("C07_ExactLines", ~LineLocalClass(e) \/ ChangedLines(toks, t2) = Range(e.kept))
+     /\ Chk("C07_ChangedButNotReported", ~LineLocalClass(e) \/ ChangedLines(toks, t2) \subseteq Range(e.kept))
+     /\ Chk("C07_ReportedButUnchanged", ~LineLocalClass(e) \/ Range(e.kept) \subseteq ChangedLines(toks, t2))
+     \* ---- C11: a rule never edits a token that carries a code tag naming it (or the bare tag)
+     /\ Chk("C11_NoFixWhereTagged", \A k \in 1..nw : ~ws[k].tagged)
      \* ---- C13 / C20: only what --fix_phase, skip_phase and --fix_only allow, in phase order
      /\ Chk("C13_FixPhase", e.phase <= fixPhase /\ e.phase \notin skip)
      /\ Chk("C13_PhaseOrder", e.phase > lastPS[1] \/ (e.phase = lastPS[1] /\ e.sub >= lastPS[2]))
@@ -146,6 +153,9 @@ Reparse ==
   /\ E.e = "Reparse"
   /\ Chk("C08_Accepted", E.ok)
   /\ Chk("C08_SameTokens", ~E.ok \/ KXR(E.toks) = KXR(toks))
+  \* C01 end to end: the code tokens of the text that is written are the code tokens of the model (nothing merged into a comment)
+  /\ Chk("C01_WrittenCodeEqualsModel", ~E.ok \/ NV(Code(E.toks)) = NV(Code(toks)))
+  /\ Chk("C02_WrittenCommentsEqualModel", ~E.ok \/ KN(Comments(E.toks)) = KN(Comments(toks)))
   /\ Chk("C08_SameIndent", ~E.ok \/ KXR(E.toks) # KXR(toks) \/ E.ind1 = E.ind2)
   /\ Same
 
@@ -175,6 +185,9 @@ Texts == Traces[tid].texts
 End ==
   /\ E.e = "End"
   /\ Chk("C09_SecondFixChangesNothing", Len(Texts) < 2 \/ Texts[2] = Texts[1])
+  \* C04: a --fix run in which no fixable violation was found leaves the file untouched (same inode, mtime, bytes)
+  /\ Chk("C04_CleanUntouched", \A k \in 1..Len(Traces[tid].rounds) :
+            LET rd == Traces[tid].rounds[k] IN (rd.nfix = 0 /\ rd.ok) => (rd.sameInode /\ rd.sameMtime /\ rd.sameBytes))
   /\ Chk("C09_NoOscillation", \A i, j \in 1..Len(Texts) : (i < j /\ Texts[i] = Texts[j]) => \A k \in i..j : Texts[k] = Texts[i])
   /\ Chk("C09_EventuallyConstant", Len(Texts) < 3 \/ Texts[Len(Texts)] = Texts[Len(Texts) - 1])
   /\ PrintT(<<"DONE", Traces[tid].tid, l>>)
